@@ -51,13 +51,13 @@ def background(s, tag0=50):
 
 
 # ---------------------------------------------------------------- T1
-def gen_T1(fmt, shapes, per_case=150):
+def gen_T1(fmt, shapes, per_case=150, single=False):
     cases = []
     for si, sh in enumerate(shapes):
         L = lens(sh)
         tuples = list(all_tuples(L))
         for b in range(0, len(tuples), per_case):
-            s = Script('T1-f%d-s%d-%d' % (fmt, si, b), 1, fmt, DIMS, [('v', D.NC_INT, list(sh)), ('w', D.NC_INT, [0, 1])])
+            s = Script('T1%s-f%d-s%d-%d' % ('one' if single else '', fmt, si, b), 1, fmt, DIMS, [('v', D.NC_INT, list(sh)), ('w', D.NC_INT, [1, 2] if single else [0, 1])])
             background(s)
             for k, (st, ct, sd) in enumerate(tuples[b:b + per_case]):
                 s.put('*', 0, st, ct, sd, form='vars', coll=1, tag=2 + k % 40)
@@ -153,12 +153,12 @@ def call(s, isput, ranks, v, fname, fkw, lkw, coll, tag):
     return s.get(ranks, v, form=form, coll=coll, **kw)
 
 
-def gen_T2(fmt, shapes, layouts, xtype=D.NC_INT, hints=None):
+def gen_T2(fmt, shapes, layouts, xtype=D.NC_INT, hints=None, single=False):
     cases = []
     for si, sh in enumerate(shapes):
         L = lens(sh)
         for coll in (1, 0):
-            s = Script('T2-f%d-s%d-c%d%s' % (fmt, si, coll, '-' + hints.replace('=', '_') if hints else ''), 1, fmt, DIMS, [('v', xtype, list(sh)), ('w', xtype, [0, 1]), ('z', D.NC_SHORT, [2])], hints=hints)
+            s = Script('T2%s-f%d-s%d-c%d%s' % ('one' if single else '', fmt, si, coll, '-' + hints.replace('=', '_') if hints else ''), 1, fmt, DIMS, [('v', xtype, list(sh)), ('w', xtype, [1, 2] if single else [0, 1]), ('z', D.NC_SHORT, [2])], hints=hints)
             background(s)
             if not coll: s.op('*', 'begin_indep')
             tag = 1
@@ -287,6 +287,10 @@ def main(tier=None):
         for np in (2, 3): out += gen_T3(1, SHAPES, np)
         out += gen_T3(5, SHAPES, 2)
         out += gen_T4((1, 2, 5))
+        # files in which the accessed variable is the ONLY record variable (records packed back to back: other contiguity rules)
+        recshapes = [sh for sh in SHAPES if sh and sh[0] == 0]
+        out += gen_T1(1, recshapes, single=True) + gen_T1(5, recshapes[1:], single=True)
+        out += gen_T2(2, recshapes, LAYOUTS_QUICK, single=True) + gen_T2(1, recshapes, LAYOUTS_QUICK, xtype=D.NC_SHORT, single=True)
         return out
     scripts += base_set()
     if thorough:
